@@ -151,7 +151,7 @@ class Recorder:
                             continue
                     if await_main is not None:
                         # an interrupt was injected: keep every waiter held until the main thread has handled it
-                        # (it is back in `get`, after skip_all_tasks dispatched the remaining tasks) — at most 2 s
+                        # (it is back in `get`, after the first round of skip_all_tasks released what is runnable) — at most 2 s
                         if (self.gets > await_main[0] and self.main_in_get) or time.time() > await_main[1]:
                             await_main = None
                         else:
